@@ -645,6 +645,18 @@ JLS_API int32_t jls_rd_fsr_statistics(struct jls_rd_s * self, uint16_t signal_id
     return jls_core_fsr_statistics(&self->core, signal_id, start_sample_id, increment, data, data_length);
 }
 
+// Add the signal's sample id offset to a caller's timestamp, which may be as far
+// out as INT64_MIN or INT64_MAX ("from the start", "nothing"): saturate, never wrap.
+static int64_t add_saturate(int64_t a, int64_t b) {
+    if ((b > 0) && (a > (INT64_MAX - b))) {
+        return INT64_MAX;
+    }
+    if ((b < 0) && (a < (INT64_MIN - b))) {
+        return INT64_MIN;
+    }
+    return a + b;
+}
+
 int32_t jls_core_annotations(struct jls_core_s * self, uint16_t signal_id, int64_t timestamp,
                              jls_rd_annotation_cbk_fn cbk_fn, void * cbk_user_data) {
     struct jls_annotation_s * annotation;
@@ -654,7 +666,7 @@ int32_t jls_core_annotations(struct jls_core_s * self, uint16_t signal_id, int64
     ROE(jls_core_signal_validate(self, signal_id));
     struct jls_signal_def_s * signal_def = &self->signal_info[signal_id].signal_def;
     const int64_t sample_id_offset = signal_def->sample_id_offset;
-    timestamp += sample_id_offset;
+    timestamp = add_saturate(timestamp, sample_id_offset);
 
     int32_t rv = jls_core_ts_seek(self, signal_id, 0, JLS_TRACK_TYPE_ANNOTATION, timestamp);
     if (rv == JLS_ERROR_NOT_FOUND) {
@@ -736,7 +748,7 @@ int32_t jls_core_utc(struct jls_core_s * self, uint16_t signal_id, int64_t sampl
     ROE(jls_core_signal_validate(self, signal_id));
     struct jls_signal_def_s * signal_def = &self->signal_info[signal_id].signal_def;
     const int64_t sample_id_offset = signal_def->sample_id_offset;
-    sample_id += sample_id_offset;
+    sample_id = add_saturate(sample_id, sample_id_offset);
     // Entries that no index chunk holds yet (a file that was not closed normally)
     // are reached through the list of their DATA chunks.
     struct jls_chunk_header_s hdr;
